@@ -237,7 +237,7 @@ class Fabric:
     diff / gen build it once and pass it to the pool"""
 
     def __init__(self, devices):
-        """devices: [{"hostname", "model", "old": forest, "gens": [(forest, safe)], "filter_acl": text or None}]"""
+        """devices: [{"hostname", "model", "old": forest, "gens": [(forest, safe)], "filter_acl": text or None, "tags": [...]}]"""
         from annet.annlib.netdev.views.hardware import HardwareView
         self.dir = tempfile.mkdtemp(prefix="verif-e2e-")
         self.devs, self.gens = {}, {}
@@ -246,7 +246,7 @@ class Fabric:
             d = _Device()
             d.hw = env.HwVendorCached(hw)
             d.hostname, d.fqdn, d.id, d.breed = spec["hostname"], spec["hostname"] + ".example", n, hw.vendor
-            d.tags, d.storage, d.neighbours_ids = [], _Storage(), []
+            d.tags, d.storage, d.neighbours_ids = list(spec.get("tags", [])), _Storage(), []
             self.devs[n] = d
             self.gens[d] = [forest_generator("E2EFab%d_%d%s" % (n, i, "Safe" if safe else ""), hw.vendor, forest, safe)
                             for i, (forest, safe) in enumerate(spec["gens"])]
